@@ -1,32 +1,41 @@
 import HypatiaProofs.Lemmas.ConcurrencyFieldMerge
-import HypatiaProofs.Lemmas.ConcurrencyKeywordOps
+import HypatiaProofs.Lemmas.ConcurrencyKeywordMerge2
+import HypatiaProofs.Lemmas.KeywordQuery
+import HypatiaProofs.Lemmas.KeywordObs
 import HypatiaProofs.Lemmas.FieldQuery
 import HypatiaProofs.Lemmas.FieldObs
 
 /-!
 # C19, per-index layer: which objects hypatia's own operations read and write
 
-`Properties/C19.lean` carries the generic optimistic-commit theorem.  Here the **field index** is
-laid out as the persistent objects ZODB stores (`HypatiaModel/ConcurrencyIndex.lean`: forward tree
-`value ↦ reference`, one posting object per value with its own identity, reverse tree,
-not-indexed set, `Length`), its operations log what they read and write, and the second commit
-merges object by object with BTrees' rules (per key three-way merge; conflict when both sides
-changed a key; conflict when the committed or the new state of a set/bucket is empty, or the
-merged one would be).
+`Properties/C19.lean` carries the generic optimistic-commit theorem.  Here the **field index** and
+the **keyword index** are laid out as the persistent objects ZODB stores
+(`HypatiaModel/ConcurrencyIndex.lean`: forward tree `key ↦ reference`, one posting object per key
+with its own identity – for the keyword index a small `Set` or a `TreeSet`, a *different object*
+after `_insert_forward` replaced the set at `tree_threshold` –, reverse tree, not-indexed set,
+`Length`), their operations log what they read and write, and the second commit merges object by
+object with BTrees' rules (per key three-way merge; conflict when both sides changed a key;
+conflict when the committed or the new state of a set/bucket is empty, or the merged one would be).
 
-Proved for **every** base state satisfying the object-level form of the C01 refinement invariant
-(`OInv`: the C01 invariant on the heap with references resolved + references resolve and are not
-shared), **every** pair of operation lists (`index_doc` / `reindex_doc` / `unindex_doc`, with or
-without a value) on disjoint docids: the second commit either reports a conflict, or the merged
-heap satisfies the invariant for the document table "first transaction's calls, then the
-second's" – the same table the serial execution represents; hence forward/reverse agreement,
-`Length` = number of reverse entries, every query answer and every statistic coincide with serial
-execution.
+Proved, for the field index and for the keyword index (code as repaired for D20, any
+`tree_threshold`): for **every** base state satisfying the object-level form of the C01 / C02
+refinement invariant (`OInv` / `KOInv`: the invariant on the heap with references resolved +
+references resolve and are not shared), **every** pair of operation lists (`index_doc` /
+`reindex_doc` / `unindex_doc`, with or without a value) on disjoint docids: the second commit
+either reports a conflict, or the merged heap satisfies the invariant for the document table
+"first transaction's calls, then the second's" – the table the serial execution represents;
+hence forward/reverse agreement, `Length` = number of reverse entries, every query answer and
+every statistic coincide with serial execution (`…_conflict_or_serial`, `…_merged_observes_serial`).
 
 The generic theorem's hypothesis "the second transaction read nothing the first one wrote" is
 *false* for hypatia (the truth test `if not set:` reads the whole posting the other side inserted
 into); what makes the property hold is the empty-state rule of `Set._p_resolveConflict`, which is
-therefore part of the model and used in `merged_posting`.
+therefore part of the model and used in `merged_posting` / `kmerged_posting`.  For the keyword
+index it holds only because the repaired `_insert_forward` empties the set it replaces:
+`c19_d20_unrepaired_loses_update` is the counterexample for the code before the repair.
+
+Not covered by a theorem: the facet index (own `index_doc`; object model and runtime check only)
+and the text indexes.
 -/
 set_option linter.unusedSectionVars false
 namespace Hyp.CIdx
@@ -220,22 +229,11 @@ example :
     dirty (d20B c).writes (.post (0, 0)) = true := by
   decide
 
-/- **Full statement for the keyword index** (not proved; what is missing is the keyword analogue of
-`Lemmas/ConcurrencyFieldSim/Frame/Merge`: the simulation of the object-level `index_doc` – several
-postings per call, the `kw_added` / `kw_removed` difference path – by the C02 model and the
-footprint of a transaction; the merge argument itself is the one of the field index, per keyword):
-
-  theorem c19_keyword_conflict_or_serial (c : KCfg) (hc : c.clearReplaced = true)
-      (H : KHeap K) (t : Keyword.Spec.Table K) (hI : Keyword.Inv (Keyword.erase (H.view c.thr)) t ∧ KWf H)
-      (ia ib : Nat) (hab : ia ≠ ib) (hoa : …owner ≠ ia) (hob : …owner ≠ ib)
-      (opsA opsB : List (TOp (List K))) (hdis : ∀ d, d ∈ docsOf opsA → d ∉ docsOf opsB) (M : KHeap K)
-      (hM : commitSecondK H (KTx.run c (KTx.start H ia) opsA) (KTx.run c (KTx.start H ib) opsB) = some M) :
-      Keyword.Inv (Keyword.erase (M.view c.thr)) (tableAfterK t (opsA ++ opsB)) ∧ KWf M
-
-Proved instead: a successful commit never merges two transactions' changes into a posting object
-that one of them has replaced or dropped – the way D20 lost updates – for all bases, thresholds
-and operation lists. -/
-theorem c19_keyword_conflict_or_serial_partial (c : KCfg) (hc : c.clearReplaced = true)
+/-- A successful commit never merges two transactions' changes into a posting object that one of
+them has replaced or dropped – the way D20 lost updates – for all bases, thresholds and operation
+lists (a corollary of (b) and its mirror image; kept as a separate statement because it does not
+need the refinement invariant, only that references resolve and are not shared). -/
+theorem c19_keyword_no_orphan_merge (c : KCfg) (hc : c.clearReplaced = true)
     (H : KHeap K) (hw : KWf H) (ia ib : Nat)
     (hoa : ∀ o, (AMap.get H.post o).isSome → o.1 ≠ ia) (hob : ∀ o, (AMap.get H.post o).isSome → o.1 ≠ ib)
     (opsA opsB : List (TOp (List K))) (M : KHeap K)
@@ -257,5 +255,97 @@ theorem c19_keyword_conflict_or_serial_partial (c : KCfg) (hc : c.clearReplaced 
     have : commitSecondK H (KTx.run c (KTx.start H ia) opsA) (KTx.run c (KTx.start H ib) opsB) = none :=
       commitSecondK_none_of_post hs0 he (by rw [hda, hdb]; simp [mergeObj, resolvePosting_new_empty])
     rw [this] at hM; cases hM
+
+
+/-! ## keyword index: conflict or serial, in full -/
+
+open Hyp.Keyword Hyp.Keyword.Spec in
+/-- the empty keyword index satisfies the object-level invariant -/
+theorem c19_keyword_init : KOInv ({} : KHeap K) ([] : Keyword.Spec.Table K) :=
+  ⟨kinv_of_sim (ksim_pview _) (Keyword.inv_init (K := K)) AMap.WF_nil,
+   ⟨fun _ _ h => by simp at h, fun _ _ _ h => by simp at h, AMap.WF_nil⟩⟩
+
+open Hyp.Keyword Hyp.Keyword.Spec in
+/-- **One keyword transaction** of the repaired code refines the C02 model: from a snapshot that
+satisfies the object-level C02 invariant, any list of calls leaves a heap that satisfies it for
+the table the calls produce (any `tree_threshold`). -/
+theorem c19_keyword_txn_refines (c : KCfg) (hc : c.clearReplaced = true) (H : KHeap K) (t : Keyword.Spec.Table K)
+    (hI : KOInv H t) (me : Nat) (hown : ∀ o, (AMap.get H.post o).isSome → o.1 ≠ me)
+    (ops : List (TOp (List K))) :
+    KOInv (KTx.run c (KTx.start H me) ops).heap (tableAfterK t ops) :=
+  (krun_spec hI c hc me hown ops).1
+
+open Hyp.Keyword Hyp.Keyword.Spec in
+/-- **Conflict or serial – keyword index** (repaired code, any `tree_threshold`, crossing it in
+either transaction included).  `a` and `b` start from the committed state `H` (object-level C02
+invariant), run `opsA` / `opsB` on disjoint docids; `a` commits, then `b`.  If the commit does not
+raise ConflictError, the stored heap satisfies the C02 refinement invariant for the table of the
+serial execution `opsA ++ opsB`, references resolve and no posting object is shared. -/
+theorem c19_keyword_conflict_or_serial (c : KCfg) (hc : c.clearReplaced = true)
+    (H : KHeap K) (t : Keyword.Spec.Table K) (hI : KOInv H t) (ia ib : Nat) (hab : ia ≠ ib)
+    (hoa : ∀ o, (AMap.get H.post o).isSome → o.1 ≠ ia) (hob : ∀ o, (AMap.get H.post o).isSome → o.1 ≠ ib)
+    (opsA opsB : List (TOp (List K))) (hdis : ∀ d, d ∈ docsOf opsA → d ∉ docsOf opsB) (M : KHeap K)
+    (hM : commitSecondK H (KTx.run c (KTx.start H ia) opsA) (KTx.run c (KTx.start H ib) opsB) = some M) :
+    KOInv M (tableAfterK t (opsA ++ opsB)) := by
+  obtain ⟨iA, gA⟩ := krun_spec hI c hc ia hoa opsA
+  obtain ⟨iB, gB⟩ := krun_spec hI c hc ib hob opsB
+  have ctx : KCtx H t (KTx.run c (KTx.start H ia) opsA) (KTx.run c (KTx.start H ib) opsB)
+      (tableAfterK t opsA) (tableAfterK t opsB) (docsOf opsA) (docsOf opsB) :=
+    ⟨hI, iA, iB, gA, gB, hdis, by rw [krun_me, krun_me]; exact hab⟩
+  have hta : tableAfterK t (opsA ++ opsB) = tableAfterK (tableAfterK t opsA) opsB := by
+    simp [tableAfterK, List.foldl_append]
+  rw [hta]
+  apply kmerged_inv ctx hM
+  intro d
+  by_cases hd : d ∈ docsOf opsB
+  · simp only [hd, if_true]
+    exact get_tableAfterK_congr opsB _ _ d (get_tableAfterK_out opsA t d (fun e => hdis d e hd))
+  · simp only [hd, if_false]
+    exact get_tableAfterK_out opsB _ d hd
+
+/-- the heap of the serial execution of two keyword transactions -/
+def serialHeapK (c : KCfg) (H : KHeap K) (ia ib : Nat) (opsA opsB : List (TOp (List K))) : KHeap K :=
+  (KTx.run c (KTx.start (KTx.run c (KTx.start H ia) opsA).heap ib) opsB).heap
+
+open Hyp.Keyword Hyp.Keyword.Spec in
+theorem c19_keyword_serial_refines (c : KCfg) (hc : c.clearReplaced = true)
+    (H : KHeap K) (t : Keyword.Spec.Table K) (hI : KOInv H t) (ia ib : Nat) (hab : ia ≠ ib)
+    (hoa : ∀ o, (AMap.get H.post o).isSome → o.1 ≠ ia) (hob : ∀ o, (AMap.get H.post o).isSome → o.1 ≠ ib)
+    (opsA opsB : List (TOp (List K))) :
+    KOInv (serialHeapK c H ia ib opsA opsB) (tableAfterK t (opsA ++ opsB)) := by
+  obtain ⟨iA, gA⟩ := krun_spec hI c hc ia hoa opsA
+  have hta : tableAfterK t (opsA ++ opsB) = tableAfterK (tableAfterK t opsA) opsB := by
+    simp [tableAfterK, List.foldl_append]
+  rw [hta]
+  apply c19_keyword_txn_refines c hc _ _ iA ib
+  intro o ho
+  rcases gA.f.fresh_owner o ho with h | h
+  · exact hob o h
+  · rw [krun_me] at h; exact fun e => hab (h.symm.trans e)
+
+open Hyp.Keyword Hyp.Keyword.Spec in
+/-- merged = serial for the keyword index, in the vocabulary of C02 and C06: every index entry
+point (`Eq`, `NotEq`, `Any`, `NotAny`, `All`, `NotAll`) returns the same documents on the stored
+index and on the serially built one, and every enumeration / statistic coincides -/
+theorem c19_keyword_merged_observes_serial (c : KCfg) (hc : c.clearReplaced = true)
+    (H : KHeap K) (t : Keyword.Spec.Table K) (hI : KOInv H t) (ia ib : Nat) (hab : ia ≠ ib)
+    (hoa : ∀ o, (AMap.get H.post o).isSome → o.1 ≠ ia) (hob : ∀ o, (AMap.get H.post o).isSome → o.1 ≠ ib)
+    (opsA opsB : List (TOp (List K))) (hdis : ∀ d, d ∈ docsOf opsA → d ∉ docsOf opsB) (M : KHeap K)
+    (hM : commitSecondK H (KTx.run c (KTx.start H ia) opsA) (KTx.run c (KTx.start H ib) opsB) = some M) :
+    let S := serialHeapK c H ia ib opsA opsB
+    Keyword.ObsEq (M.view c.thr) (S.view c.thr) ∧
+    ∀ (q : QObj K) (d : Int), d ∈ QObj.applyIndex (M.view c.thr) q ↔ d ∈ QObj.applyIndex (S.view c.thr) q := by
+  intro S
+  have iM := (c19_keyword_conflict_or_serial c hc H t hI ia ib hab hoa hob opsA opsB hdis M hM).inv
+  have iS := (c19_keyword_serial_refines c hc H t hI ia ib hab hoa hob opsA opsB).inv
+  rw [← erase_view M c.thr] at iM
+  rw [← erase_view S c.thr] at iS
+  refine ⟨Keyword.obsEq_of_inv iM iS ⟨fun _ => Iff.rfl, fun _ _ => Iff.rfl⟩, ?_⟩
+  intro q d
+  have vM : ViewOK (M.view c.thr).view (tableAfterK t (opsA ++ opsB)) := by
+    rw [← view_erase]; exact viewOK_of_inv iM.toInvCore
+  have vS : ViewOK (S.view c.thr).view (tableAfterK t (opsA ++ opsB)) := by
+    rw [← view_erase]; exact viewOK_of_inv iS.toInvCore
+  rw [applyIndex_sem vM, applyIndex_sem vS]
 
 end Hyp.CIdx
